@@ -16,6 +16,9 @@ pub struct Session<W: Write> {
     pub panics: u64,
     pub chars_fed: u64,
     pub log_view: bool,
+    /// distinct (pre-state, input) pairs whose call changed the state
+    pub distinct: std::collections::HashSet<u64>,
+    last: Vec<u64>,
     buf: String,
 }
 
@@ -37,7 +40,7 @@ fn esc(s: &str) -> String {
 
 impl<W: Write> Session<W> {
     pub fn new(out: W) -> Self {
-        Session { out, slots: Vec::new(), events: 0, episodes: 0, panics: 0, chars_fed: 0, log_view: false, buf: String::new() }
+        Session { out, slots: Vec::new(), events: 0, episodes: 0, panics: 0, chars_fed: 0, log_view: false, distinct: Default::default(), last: Vec::new(), buf: String::new() }
     }
 
     fn emit(&mut self) {
@@ -49,6 +52,7 @@ impl<W: Write> Session<W> {
 
     pub fn episode(&mut self, drv: &str) {
         self.slots.clear();
+        self.last.clear();
         self.episodes += 1;
         let _ = write!(self.buf, "{{\"ev\":\"ep\",\"id\":{},\"drv\":\"{}\"}}", self.episodes, drv);
         self.emit();
@@ -69,7 +73,25 @@ impl<W: Write> Session<W> {
     fn state(&mut self, s: usize) {
         let vt = self.slots[s - 1].as_ref().unwrap();
         self.buf.push_str(",\"st\":");
+        let a = self.buf.len();
         let ex = obs::vt_state(&mut self.buf, vt);
+        {
+            use std::hash::{Hash, Hasher};
+            let mut h = std::collections::hash_map::DefaultHasher::new();
+            self.buf[a..].hash(&mut h);
+            let now = h.finish();
+            while self.last.len() < s {
+                self.last.push(0);
+            }
+            let before = self.last[s - 1];
+            if before != now {
+                let mut h2 = std::collections::hash_map::DefaultHasher::new();
+                before.hash(&mut h2);
+                self.buf[..a].hash(&mut h2); // the call and its arguments
+                self.distinct.insert(h2.finish());
+            }
+            self.last[s - 1] = now;
+        }
         let _ = write!(self.buf, ",\"clean\":{},\"hook\":{}", ex.clean, ex.hook_agrees);
         if self.log_view {
             self.buf.push_str(",\"view\":");
